@@ -89,11 +89,17 @@ func cpuTime() time.Duration {
 
 func parseTimed(text string, resp *wire.Resp) ([]*process.Process, []process.Name, *process.GlobalEnvironment, bool) {
 	runtime.LockOSThread()
+	var m0, m1 runtime.MemStats
+	runtime.ReadMemStats(&m0)
 	t0 := time.Now()
 	c0 := cpuTime()
 	procs, assumed, env, err := parser.ParseString(text)
 	resp.ParseUs = time.Since(t0).Microseconds()
 	resp.ParseCPUUs = (cpuTime() - c0).Microseconds()
+	runtime.ReadMemStats(&m1)
+	// bytes allocated during the parse: unlike any clock this is a function of the input alone
+	resp.ParseAllocBytes = int64(m1.TotalAlloc - m0.TotalAlloc)
+	resp.ParseMallocs = int64(m1.Mallocs - m0.Mallocs)
 	runtime.UnlockOSThread()
 	if err != nil {
 		resp.ParseErr = err.Error()
